@@ -259,7 +259,7 @@ func TestC09Random(t *testing.T) {
 		if hasDupRoots(f) && f.AllNames(model.ValidElem) {
 			uniqRoots(f)
 		}
-		c := c09Case{Forest: f, Route: route, Massive: rapid.IntRange(0, 2).Draw(rt, "massive") == 0, Exts: genExts(f.Names()).Draw(rt, "exts")}
+		c := c09Case{Forest: f, Route: route, Massive: rapid.IntRange(0, 2).Draw(rt, "massive") == 0, Exts: genExts(extSources(f)).Draw(rt, "exts")}
 		c.NoIter = route == "output-md" && rapid.IntRange(0, 2).Draw(rt, "noIter") == 0
 		c.Full = mountOK() && rapid.IntRange(0, 4).Draw(rt, "full") == 0
 		c.Missing = rapid.IntRange(0, 3).Draw(rt, "missingTarget") == 0
